@@ -307,6 +307,23 @@ func propScaleTables(c *Ctx, which string) {
 		ops = append(ops, mapOp{'a', 0x100, 0x17f, "2"})
 		runCmapCase(c, ops, []int{0xff, 0x100, 0x17f, 0x180, 0x416, 0x2000, 0x2001, 0x2003, 0x4e16, 0xfffe})
 	}
+	// partly overlapping ranges before, in the middle of and after hundreds of other registrations: every probe is
+	// answered by the latest registration that covers it - the uncovered head and tail of an older range stay with it
+	for _, n := range []int{10, 250, 257, 300, 520} {
+		for _, where := range []int{0, n / 2, n} {
+			var ops []mapOp
+			for i := 0; i <= n; i++ {
+				if i == where {
+					ops = append(ops, mapOp{'a', 0x1000, 0x1fff, "1"}, mapOp{'a', 0x0f00, 0x10ff, "2"}, mapOp{'a', 0x1800, 0x2800, "n"}, mapOp{'a', 0x1400, 0x14ff, "2"})
+				}
+				if i < n {
+					ops = append(ops, mapOp{'a', 0x3000 + 5*i, 0x3000 + 5*i + 2, []string{"2", "1"}[i%2]})
+				}
+			}
+			ops = append(ops, mapOp{'a', 0x0e80, 0x0f7f, "1"})
+			runCmapCase(c, ops, []int{0xe7f, 0xe80, 0xeff, 0xf00, 0xf7f, 0xf80, 0xfff, 0x1000, 0x10ff, 0x1100, 0x13ff, 0x1400, 0x14ff, 0x1500, 0x17ff, 0x1800, 0x1fff, 0x2000, 0x2800, 0x2801, 0x3000, 0x3003})
+		}
+	}
 }
 
 func propScaleValues(c *Ctx, which string) {
